@@ -212,9 +212,26 @@ def invalid_ignore_lines():
                  c_ls_files(False), c_commit(b"c"), c_status(), W(b".goitignore", b"a**\n\\\n"), c_status(), c_add([b"b"]), c_log(2)]
 
 
+def tmp_named_branches():
+    return ID + [W(b"f", b"1"), c_add([b"f"]), c_commit(b"c1"), c_branch(b"main.tmp"), c_branch(b"wip.tmp"), c_branch(b"index"),
+                 c_branch(b"HEAD"), c_branch_list(), W(b"f", b"2"), c_add([b"f"]), c_commit(b"c2"), c_branch(b"wip"), c_branch_list(),
+                 c_rev_parse([b"main", b"main.tmp", b"wip", b"wip.tmp", b"index", b"HEAD"]), c_switch(b"wip.tmp"), W(b"f", b"3"),
+                 c_add([b"f"]), c_commit(b"c3"), c_switch(b"wip"), c_branch_rename(b"config"), c_branch_list(),
+                 c_rev_parse([b"wip.tmp", b"config", b"main.tmp"]), c_switch(b"main"), c_branch_delete(b"main.tmp"), c_branch_list(), c_status()]
+
+
+def spaced_ignore_entries():
+    return ID + [W(b".goitignore", b"build/\nmy notes/\n*.log\n"), W(b"my notes/ideas.md", b"i"), W(b"my notes/todo.txt", b"t"),
+                 W(b"build/o", b"o"), W(b"a b.log", b"l"), W(b"my/x", b"m"), W(b"notes/y", b"n"), W(b"src/my notes/z", b"z"), W(b"k", b"k"),
+                 c_status(), c_add([b"."]), c_ls_files(False), c_add([b"my notes"]), c_add([b"my notes/ideas.md"]), c_ls_files(False),
+                 c_status(), c_commit(b"c"), W(b"my notes/ideas.md", b"changed"), c_status()]
+
+
 ORACLE_ONLY = {"newline-names", "invalid-ignore-lines"}
 
 DIRECTED = [
+    (("C10", "C03"), "tmp-named-branches", tmp_named_branches, "branches named like Goit's own temporary and metadata files (X.tmp beside X, index, HEAD, config)"),
+    (("C17", "C13"), "spaced-ignore-entries", spaced_ignore_entries, "a .goitignore directory entry whose name contains a space"),
     (("C18",), "invalid-ignore-lines", invalid_ignore_lines, "F49: .goitignore lines that are not valid regular expressions must not crash any command (outside the model's ignore alphabet: oracle only)"),
     (("C13", "C18"), "status-after-shape-changes", status_after_shape_changes, "tracked files whose parent directory was replaced by a file (ENOTDIR), a tracked file replaced by a directory, an identical rewrite"),
     (("C04", "C06", "C09"), "removed-directory-and-dot", removed_directory_and_dot, "F47/F48: add of a tracked directory removed from disk; restore --staged . after entries of HEAD were unstaged"),
